@@ -222,7 +222,7 @@ impl Prop for C13 {
                 }
                 let (sl, sr) = match (units::si_of(lv, lu, interval), units::si_of(rv, ru, interval)) {
                     (Ok(a), Ok(b)) => (a, b),
-                    (Err(e), _) | (_, Err(e)) => return fw::fail("unit-table", e),
+                    (Err(e), _) | (_, Err(e)) => return crate::units::table_verdict(e),
                 };
                 if sl == sr {
                     fw::pass(true, fw::hash_str(&sl.short()))
